@@ -1,5 +1,6 @@
 import Vet.Props.C11
 import Vet.Props.Commands
+import Vet.Props.Renew
 #print axioms Vet.C11_local_audits
 #print axioms Vet.C11_imports
 #print axioms Vet.C11_publishers
@@ -17,3 +18,7 @@ import Vet.Props.Commands
 #print axioms Vet.Store.ask_audit_other
 #print axioms Vet.Store.ask_exemption_self
 #print axioms Vet.Store.ask_exemption_other
+#print axioms Vet.Renew.C11_renew_expiring
+#print axioms Vet.Renew.C11_renew_crate
+#print axioms Vet.Renew.C06_renew_keeps_cap
+#print axioms Vet.Renew.renew_example
